@@ -55,6 +55,9 @@ pub enum Gen {
     Mutant { base: u16, op: u8, pos: u16, arg: u16 },
     Nest { tmpl: u8, depth: u8, inner: u16, pre: u16, post: u16 },
     Wide { base: u16, pos: u16, ch: u8 },
+    /// a near-valid type definition from a small grammar (back references `^`, `^1`… at every
+    /// depth, including one too deep), followed by a use that makes the compiler compare it
+    TypeUse(Vec<u8>),
 }
 
 pub fn strategy() -> impl Strategy<Value = Gen> {
@@ -66,6 +69,7 @@ pub fn strategy() -> impl Strategy<Value = Gen> {
         1 => (any::<u8>(), 1u8..=100, any::<u16>(), any::<u16>(), any::<u16>())
             .prop_map(|(tmpl, depth, inner, pre, post)| Gen::Nest { tmpl, depth, inner, pre, post }),
         1 => (any::<u16>(), any::<u16>(), any::<u8>()).prop_map(|(base, pos, ch)| Gen::Wide { base, pos, ch }),
+        1 => prop::collection::vec(any::<u8>(), 24).prop_map(Gen::TypeUse),
     ]
 }
 
@@ -104,8 +108,51 @@ pub fn tokenize(s: &str) -> Vec<&str> {
     out
 }
 
+/// A type from a small grammar; `depth` = number of enclosing union / function boundaries.
+fn type_text(dice: &[u8], at: &mut usize, depth: usize, fuel: usize) -> String {
+    let mut next = || {
+        let v = dice.get(*at).copied().unwrap_or(0);
+        *at += 1;
+        v
+    };
+    let x = next();
+    if fuel == 0 {
+        return ["'int", "'bin", "Nil", "^", "^1"][x as usize % 5].to_string();
+    }
+    match x % 12 {
+        0 => "'int".into(),
+        1 => "'bin".into(),
+        2 => "Nil".into(),
+        // back references: the root, a valid numbered one, exactly one too deep, far too deep
+        3 => "^".into(),
+        4 => format!("^{}", next() as usize % (depth + 1)),
+        5 => format!("^{depth}"),
+        6 => format!("^{}", depth + 1 + next() as usize % 3),
+        7 => format!("Cons[{}, {}]", type_text(dice, at, depth, fuel - 1), type_text(dice, at, depth, fuel - 1)),
+        8 => format!("({} | {})", type_text(dice, at, depth + 1, fuel - 1), type_text(dice, at, depth + 1, fuel - 1)),
+        9 => format!("(#{} -> {})", type_text(dice, at, depth + 1, fuel - 1), type_text(dice, at, depth + 1, fuel - 1)),
+        10 => format!("(x: {})", type_text(dice, at, depth, fuel - 1)),
+        _ => format!("A[{}]", type_text(dice, at, depth, fuel - 1)),
+    }
+}
+
 pub fn render(g: &Gen, corpus: &[String]) -> String {
     match g {
+        Gen::TypeUse(dice) => {
+            let mut at = 2;
+            let d = |i: usize| dice.get(i).copied().unwrap_or(0);
+            let value = ["5", "Nil", "Cons[1, Nil]", "A[0x00]", "[x: 1]", "Cons[Nil, Cons[1, Nil]]"][d(1) as usize % 6];
+            match d(0) % 4 {
+                // alias that is a union at the root, used as a parameter type
+                0 => format!("'t = {} | {}, {value} ~> #'t {{ ~ }}", type_text(dice, &mut at, 1, 3), type_text(dice, &mut at, 1, 3)),
+                // alias used in a run-time test
+                1 => format!("'t = {} | {}, {value} {{ | ='t => 1 | 2 }}", type_text(dice, &mut at, 1, 3), type_text(dice, &mut at, 1, 3)),
+                // the type written in place as a function parameter
+                2 => format!("{value} ~> #{} {{ ~ }}", type_text(dice, &mut at, 1, 3)),
+                // two aliases, one used against the other
+                _ => format!("'t = {} | Nil, 's = {} | Nil, f = #'t {{ ~ }}, g = #'s {{ ~ f }}, {value} g", type_text(dice, &mut at, 1, 3), type_text(dice, &mut at, 1, 3)),
+            }
+        }
         Gen::Tokens(v) => v.iter().map(|i| TOKENS[idx(*i, TOKENS.len())]).collect(),
         Gen::Bytes(b) => String::from_utf8_lossy(b).into_owned(),
         Gen::Mutant { base, op, pos, arg } => {
@@ -454,6 +501,7 @@ pub fn run(ctx: &Ctx) -> i32 {
                         Gen::Mutant { .. } => "mutant",
                         Gen::Nest { .. } => "nest",
                         Gen::Wide { .. } => "wide",
+                        Gen::TypeUse(_) => "type-grammar",
                     };
                     stats.class(&format!("gen:{kind}"));
                     stats.class(&format!("front:{front:?}"));
@@ -519,14 +567,14 @@ pub fn run(ctx: &Ctx) -> i32 {
         ctx,
         stats: &stats,
         violations,
-        rule: "inputs: token-alphabet strings, lossy-UTF-8 bytes, single-token mutants/prefixes/wide-char insertions of every harvested program, bracket nests to depth 100; non-trivial = parser accepted the input or entered more than 3 productions before rejecting; distinct by input text".into(),
+        rule: "inputs: token-alphabet strings, lossy-UTF-8 bytes, single-token mutants/prefixes/wide-char insertions of every harvested program, bracket nests to depth 100, near-valid type definitions from a small grammar (back references at every depth, incl. one too deep) followed by a use; non-trivial = parser accepted the input or entered more than 3 productions before rejecting; distinct by input text".into(),
         assumptions: vec![
             format!("termination is judged as a deterministic production budget 200*n^2+2e6 (hook H5), not wall-clock"),
             format!("inputs with '(' nesting deeper than {PAREN_CAP} or spawn-block nesting deeper than {SPAWN_CAP} are excluded from the random search (known finding: exponential backtracking); the witness is re-checked every run"),
             "compile stage uses the in-memory resolver with the embedded std only".into(),
             "stack exhaustion is observed on 256 MiB shard stacks; the CLI's 8 MiB main-thread limit is sampled separately by the thorough tier".into(),
         ],
-        required_classes: vec!["gen:tokens", "gen:mutant", "gen:nest", "gen:wide", "front:Accepted", "front:ParseErr", "front:CompileErr", "prefix"],
+        required_classes: vec!["gen:tokens", "gen:mutant", "gen:nest", "gen:wide", "gen:type-grammar", "front:Accepted", "front:ParseErr", "front:CompileErr", "prefix"],
         started,
         technique: "proptest-generated inputs + corpus mutation; oracle = no panic, located error, production budget",
     })
